@@ -72,7 +72,7 @@ struct FileSpec {
 }
 
 #[derive(Clone, Copy, PartialEq, Eq, Debug)]
-enum TreeKind { Stable, Perm, Mutate, NonUtf8 }
+enum TreeKind { Stable, Perm, Mutate, NonUtf8, Wild, WildNl }
 
 struct Tree { root: PathBuf, files: Vec<FileSpec>, locked_dirs: Vec<Vec<u8>> }
 
@@ -122,12 +122,28 @@ fn gen_tree(rng: &mut Rng, root: &Path, kind: TreeKind, nrules: usize, cap: usiz
     let mut files = vec![];
     for i in 0..nfiles {
         // the first file of a non-UTF-8 tree always has such a name and lives in the root (in scope for every depth option)
-        let forced = kind == TreeKind::NonUtf8 && i == 0;
+        let wild = kind == TreeKind::Wild || kind == TreeKind::WildNl;
+        let forced = (kind == TreeKind::NonUtf8 || wild) && i == 0;
         let (p, depth) = if forced { (vec![], 0) } else { dirs[rng.below(dirs.len() as u64) as usize].clone() };
         let mut rel = p.clone();
         if !rel.is_empty() { rel.push(b'/'); }
         let name: Vec<u8> = match (kind, if forced { 0 } else { rng.below(12) }) {
             (TreeKind::NonUtf8, 0..=2) => { let mut n = format!("f{i}_").into_bytes(); n.extend_from_slice(&[0xff, 0xfe, b'x']); n }
+            // the "wild" alphabet: leading / trailing blanks, tabs, CR, shell / glob / comment characters, bidi and
+            // emoji, long names; a newline only in trees that are scanned in ndjson mode (text lines would be split).
+            // The first file of a wild tree has a name that ENDS WITH A SPACE and lives in the root.
+            (TreeKind::Wild | TreeKind::WildNl, 0) => format!("f{i} ").into_bytes(),
+            (TreeKind::Wild | TreeKind::WildNl, 1) => format!(" f{i}").into_bytes(),
+            (TreeKind::Wild | TreeKind::WildNl, 2) => format!("f{i}\t").into_bytes(),
+            (TreeKind::Wild | TreeKind::WildNl, 3) => format!("#f{i}").into_bytes(),
+            (TreeKind::Wild | TreeKind::WildNl, 4) => format!("f{i}#frag;x*?[a]{{b}}").into_bytes(),
+            (TreeKind::Wild | TreeKind::WildNl, 5) => format!("-f{i} -r").into_bytes(),
+            (TreeKind::Wild | TreeKind::WildNl, 6) => format!("f{i}\r").into_bytes(),
+            (TreeKind::WildNl, 7) => format!("f{i}\nsecond line ").into_bytes(),
+            (TreeKind::Wild | TreeKind::WildNl, 8) => format!("f{i}_{}", "L".repeat(200)).into_bytes(),
+            (TreeKind::Wild | TreeKind::WildNl, 9) => format!("f{i} \u{202e}\u{1F600}\u{e9} ").into_bytes(),
+            (TreeKind::Wild | TreeKind::WildNl, 10) => format!("f{i}\"q'$%:&|;<>()\\").into_bytes(),
+            (TreeKind::Wild | TreeKind::WildNl, 11) => format!("  {i}  ").into_bytes(),
             (TreeKind::Stable, 0) => format!("f{i} with space.bin").into_bytes(),
             (TreeKind::Stable, 1) => format!("f{i}-\u{e9}\u{4e2d}.txt").into_bytes(),
             (TreeKind::Stable, 2) => format!(".hidden{i}").into_bytes(),
@@ -449,7 +465,7 @@ fn parse_opt_output(out: &[u8], o: &Opts, root_prefix: &str, path_ids: &HashMap<
             if l.starts_with("0x") { continue; }       // a match line of --print-strings
             let first = l.split(' ').next().unwrap_or("");
             let rule = first.rsplit(':').next().unwrap_or("");
-            match l.find(root_prefix) {
+            match l.find(root_prefix).or_else(|| l.find(" root dir/").map(|k| k + 1)) {
                 Some(k) => lines.push((*path_ids.get(&l[k..]).unwrap_or(&UNKNOWN_FILE), *rule_ids.get(rule).unwrap_or(&UNKNOWN_RULE))),
                 None => { bad += 1; lines.push((UNKNOWN_FILE, UNKNOWN_RULE)); }
             }
@@ -467,12 +483,13 @@ fn define_all(c: &mut yara_x::Compiler, vals: &[(&'static str, Val)]) {
 }
 
 #[allow(clippy::too_many_arguments)]
-fn option_tree(rng: &mut Rng, work: &Path, tree_idx: usize, yr: &str, cap: usize, limit: Duration, seed: u64, has_math: bool, corpus: bool,
+fn option_tree(rng: &mut Rng, work: &Path, tree_idx: usize, yr: &str, cap: usize, limit: Duration, seed: u64, has_math: bool, corpus: usize,
                budget: usize, stats: &mut Stats, distinct: &mut HashSet<(usize, usize, bool, bool)>, samples: &mut Vec<String>, shards: &mut Shards) -> usize {
     let tdir = work.join(format!("t{}", tree_idx));
     let root = tdir.join("root dir");
     fs::create_dir_all(&tdir).unwrap();
-    let mut tree = gen_tree(rng, &root, TreeKind::Stable, 6, cap);
+    let tkind = if corpus == 2 { TreeKind::Wild } else { match rng.below(4) { 0 => TreeKind::Stable, 1 => TreeKind::WildNl, _ => TreeKind::Wild } };
+    let mut tree = gen_tree(rng, &root, tkind, 6, cap);
     if tree.files.len() > 160 { // keep option trees small: the subject here is the option plumbing
         for f in tree.files.drain(160..) { let _ = fs::remove_file(root.join(OsString::from_vec(f.rel))); }
     }
@@ -486,14 +503,24 @@ fn option_tree(rng: &mut Rng, work: &Path, tree_idx: usize, yr: &str, cap: usize
     let rule_ids: HashMap<String, u64> = OPT_RULE_NAMES.iter().enumerate().map(|(i, n)| (n.to_string(), i as u64)).collect();
     let root_prefix = root.to_string_lossy().to_string();
     let mut path_ids: HashMap<String, u64> = HashMap::new();
-    for (i, f) in tree.files.iter().enumerate() { path_ids.insert(root.join(OsString::from_vec(f.rel.clone())).to_string_lossy().to_string(), i as u64); }
+    // a scan list may name a file by its absolute path or relative to the working directory of yr (= tdir)
+    let rel_prefix = "root dir/".to_string();
+    for (i, f) in tree.files.iter().enumerate() {
+        path_ids.insert(root.join(OsString::from_vec(f.rel.clone())).to_string_lossy().to_string(), i as u64);
+        path_ids.insert(format!("{}{}", rel_prefix, String::from_utf8_lossy(&f.rel)), i as u64);
+    }
+    let has_newline_name = tree.files.iter().any(|f| f.rel.contains(&b'\n'));
+    // cannot be named in a scan list: a name containing a newline, or ending with CR (BufRead::lines strips CR LF)
+    let listable = |f: &FileSpec| !f.rel.contains(&b'\n') && !f.rel.ends_with(b"\r");
     stats.inc("trees"); stats.inc("tree_kind_OptionMatrix");
     let mut pushed = 0;
-    let nruns = if corpus { 2 } else { 3 };
+    let nruns = if corpus == 1 { 2 } else if corpus == 2 { 2 } else { 3 };
     for r in 0..nruns {
         if pushed >= budget { break; }
-        let mut o = gen_opts(rng, corpus);
-        if corpus && r == 1 { o.ndjson = true; o.threads = 1; }
+        let mut o = gen_opts(rng, corpus != 0);
+        if corpus != 0 && r == 1 { o.ndjson = true; o.threads = 1; }
+        if corpus == 2 { o.scan_list = true; o.threads = if r == 0 { 8 } else { 2 }; }
+        if has_newline_name { o.ndjson = true; }
         if !has_math { o.ignore_module = false; }
         // ---- library oracle, with the SAME globals and scan options
         let mut comp = yara_x::Compiler::new();
@@ -503,9 +530,23 @@ fn option_tree(rng: &mut Rng, work: &Path, tree_idx: usize, yr: &str, cap: usize
         let lib_rules = comp.build();
         let max_depth = if o.scan_list { usize::MAX } else if !o.recursive { 0 } else { o.depth.unwrap_or(1000) };
         let in_scope: Vec<bool> = tree.files.iter().map(|f| f.depth <= max_depth && o.skip_larger.map_or(true, |s| f.content.len() as u64 <= s)).collect();
-        let listed: Vec<bool> = tree.files.iter().map(|f| f.depth <= max_depth).collect();
+        // the scan list: one entry per line; (file index, relative?, CRLF ending?) or a junk line
+        let mut list_lines: Vec<(Option<usize>, bool, bool)> = vec![];
+        if o.scan_list {
+            for (i, f) in tree.files.iter().enumerate() {
+                if !listable(f) { continue; }
+                let times = if rng.chance(1, 10) { 2 } else { 1 };
+                for _ in 0..times { list_lines.push((Some(i), rng.chance(2, 5), rng.chance(1, 4))); }
+                if rng.chance(1, 10) { list_lines.push((None, rng.chance(1, 2), rng.chance(1, 4))); }   // blank line / missing file
+            }
+            // Fisher-Yates
+            for k in (1..list_lines.len()).rev() { let j = rng.below(k as u64 + 1) as usize; list_lines.swap(k, j); }
+        }
+        let occurrences: Vec<usize> = if o.scan_list { list_lines.iter().filter_map(|l| l.0).collect() }
+                                      else { (0..tree.files.len()).filter(|i| tree.files[*i].depth <= max_depth).collect() };
         let mut tbl: Vec<(u64, Vec<u64>)> = vec![];
-        for (i, f) in tree.files.iter().enumerate() {
+        for i in occurrences.iter().cloned() {
+            let f = &tree.files[i];
             if !in_scope[i] { continue; }
             let mut sc = yara_x::Scanner::new(&lib_rules);
             if let Some(m) = o.max_matches { sc.max_matches_per_pattern(m); }
@@ -529,18 +570,32 @@ fn option_tree(rng: &mut Rng, work: &Path, tree_idx: usize, yr: &str, cap: usize
         if co.status != Some(0) { eprintln!("c18: yr compile (option stream) failed: {}", String::from_utf8_lossy(&co.stderr)); std::process::exit(2); }
         let target: PathBuf = if o.scan_list {
             let lp = tdir.join("list.txt");
-            let mut txt = String::new();
-            for (i, f) in tree.files.iter().enumerate() { if listed[i] { txt.push_str(&root.join(OsString::from_vec(f.rel.clone())).to_string_lossy()); txt.push('\n'); } }
+            let mut txt: Vec<u8> = vec![];
+            for (k, (fi, relative, crlf)) in list_lines.iter().enumerate() {
+                match fi {
+                    Some(i) => {
+                        if *relative { txt.extend_from_slice(rel_prefix.as_bytes()); txt.extend_from_slice(&tree.files[*i].rel); }
+                        else { txt.extend_from_slice(root.join(OsString::from_vec(tree.files[*i].rel.clone())).as_os_str().as_encoded_bytes()); }
+                    }
+                    None => { if *relative { txt.extend_from_slice(format!("{}no-such-file-{}", rel_prefix, k).as_bytes()); } }   // else: a blank line
+                }
+                if k + 1 < list_lines.len() || rng.chance(1, 2) { if *crlf { txt.push(b'\r'); } txt.push(b'\n'); }
+            }
             fs::write(&lp, txt).unwrap();
+            stats.add("scan_list_lines", list_lines.len() as u64);
+            stats.add("scan_list_lines_relative", list_lines.iter().filter(|l| l.0.is_some() && l.1).count() as u64);
+            stats.add("scan_list_lines_crlf", list_lines.iter().filter(|l| l.2).count() as u64);
+            stats.add("scan_list_junk_lines", list_lines.iter().filter(|l| l.0.is_none()).count() as u64);
+            stats.add("scan_list_names_ending_in_blank", list_lines.iter().filter(|l| l.0.map_or(false, |i| tree.files[i].rel.ends_with(b" ") || tree.files[i].rel.ends_with(b"\t"))).count() as u64);
             lp
         } else { root.clone() };
         let mk_src = || { let mut c = Command::new(yr);
             c.args(scan_args(&o));
             if o.path_as_namespace { c.arg("--path-as-namespace"); }
             if o.ignore_module { c.arg("--ignore-module").arg("math"); }
-            c.arg(&rules_path).arg(&target).env("HOME", work).env("NO_COLOR", "1"); c };
+            c.arg(&rules_path).arg(&target).env("HOME", work).env("NO_COLOR", "1").current_dir(&tdir); c };
         let mk_bin = || { let mut c = Command::new(yr);
-            c.args(scan_args(&o)).arg("--compiled-rules").arg(&compiled_path).arg(&target).env("HOME", work).env("NO_COLOR", "1"); c };
+            c.args(scan_args(&o)).arg("--compiled-rules").arg(&compiled_path).arg(&target).env("HOME", work).env("NO_COLOR", "1").current_dir(&tdir); c };
         let so = run_retry(&mk_src, limit, false, stats);
         let bo = run_retry(&mk_bin, limit, false, stats);
         let sp = parse_opt_output(&so.stdout, &o, &root_prefix, &path_ids, &rule_ids);
@@ -569,6 +624,7 @@ fn option_tree(rng: &mut Rng, work: &Path, tree_idx: usize, yr: &str, cap: usize
                            (o.scan_list, "opt_scan_list"), (o.ignore_module, "opt_ignore_module"), (o.depth.is_some(), "opt_depth_limited"), (!o.recursive, "opt_not_recursive")] {
             if on { stats.inc(name); }
         }
+        let class: String = if o.scan_list && class.starts_with("options:") { class.replacen("options:", "scan-list:", 1) } else { class.to_string() };
         if class != "ok" { stats.inc(&format!("class_{}", class)); }
         if tbl.len() >= 2 && o.threads >= 2 { distinct.insert((tree_idx * 16 + r, o.threads, !o.ndjson, true)); }
         let case_seed = rng.next() & 0xffff_ffff_ffff;
@@ -663,22 +719,62 @@ fn run(args: &[String]) -> i32 {
         let _ = fs::remove_dir_all(&dir);
     }
 
+    // ---------------- json output: the `file` of every match must be the file that was scanned
+    {
+        let dir = work.join("json probe");
+        let _ = fs::remove_dir_all(&dir);
+        fs::create_dir_all(&dir).unwrap();
+        fs::write(dir.join("a.bin"), b"xx TOKJ_ xx").unwrap();
+        let _ = std::os::unix::fs::symlink("a.bin", dir.join("b.bin"));
+        let nu = dir.join(OsString::from_vec(b"n\xff\xfex".to_vec()));
+        fs::write(&nu, b"TOKJ_").unwrap();
+        let rules_path = work.join("json.yar");
+        fs::write(&rules_path, "rule has_tok { strings: $a = \"TOKJ_\" condition: $a }\n").unwrap();
+        let ids: HashMap<String, u64> = [(dir.join("b.bin").to_string_lossy().to_string(), 0u64), (dir.join("a.bin").to_string_lossy().to_string(), 1), (nu.to_string_lossy().to_string(), 2)].into_iter().collect();
+        for (what, target, expected) in [("symlink given as target", dir.join("b.bin"), vec![(0u64, vec![0u64])]), ("directory with a non-UTF-8 name", dir.clone(), vec![(1, vec![0]), (2, vec![0])])] {
+            let o = run_retry(&|| { let mut c = Command::new(&yr); c.args(["scan", "--threads", "2", "--output-format", "json"]).arg(&rules_path).arg(&target).env("HOME", &work); c }, limit, false, &mut stats);
+            let mut lines: Vec<(u64, u64)> = vec![];
+            let mut files_reported: Vec<String> = vec![];
+            match serde_json::from_slice::<serde_json::Value>(&o.stdout) {
+                Ok(v) => for m in v.get("matches").and_then(|x| x.as_array()).cloned().unwrap_or_default() {
+                    let f = m.get("file").and_then(|x| x.as_str()).unwrap_or("").to_string();
+                    lines.push((*ids.get(&f).unwrap_or(&UNKNOWN_FILE), if m.get("rule").and_then(|x| x.as_str()) == Some("has_tok") { 0 } else { UNKNOWN_RULE }));
+                    files_reported.push(f);
+                },
+                Err(_) => lines.push((UNKNOWN_FILE, UNKNOWN_RULE)),
+            }
+            lines.sort();
+            let exp: Vec<(u64, u64)> = expected.iter().flat_map(|(i, ps)| ps.iter().map(move |p| (*i, *p))).collect();
+            let ok = lines == exp && o.status == Some(0);
+            stats.inc(if ok { "json_probe_ok" } else { "json_probe_file_misattributed" });
+            shards.push(format!("CRun (mkRun {} {} {} {} {} {} {} {})", coq_nat(2), coq_list(&expected, |(i, ps)| format!("({}%N, {})", i, coq_ns(ps))),
+                    coq_ns(&[]), coq_ns(&[]), coq_pairs(&lines), coq_pairs(&lines), coq_bool(o.status == Some(0) && !o.timed_out), coq_n(7)),
+                format!("{{\"kind\":\"json-probe\",\"class\":\"{}\",\"what\":{},\"cmd\":{},\"files_reported\":{},\"expected_file\":{}}}",
+                    if ok { "ok" } else { "json-output-file-attribution" }, json_str(what), json_str(&format!("yr scan --threads 2 --output-format json json.yar {}", target.to_string_lossy())),
+                    json_str(&format!("{:?}", files_reported)), json_str(&format!("{:?}", expected.iter().map(|(i, _)| ids.iter().find(|(_, v)| *v == i).map(|(k, _)| k.clone()).unwrap_or_default()).collect::<Vec<_>>()))));
+        }
+        let _ = fs::remove_dir_all(&dir);
+    }
+
     // ---------------- trees
     let has_math = yara_x::Compiler::new().add_source("import \"math\" rule t { condition: math.abs(-1) == 1 }").is_ok();
     let mut tree_idx = 0usize;
     let mut run_cases = 0usize;
     while run_cases < n {
         tree_idx += 1;
-        // option matrix (source rules vs compiled rules): the second tree of every run is the fixed regression case
-        // (--define values that differ from the ones given to `yr compile`), then 30% of the trees
-        if tree_idx == 2 || (tree_idx > 2 && rng.chance(3, 10)) {
-            run_cases += option_tree(&mut rng, &work, tree_idx, &yr, cap, limit, seed, has_math, tree_idx == 2, n - run_cases,
+        // option matrix (source rules vs compiled rules): the second and third tree of every run are fixed regression cases
+        // (--define values that differ from the ones given to `yr compile`; a scan list naming a file whose name ends
+        // with a space), then 30% of the trees
+        if tree_idx == 2 || tree_idx == 3 || (tree_idx > 3 && rng.chance(3, 10)) {
+            run_cases += option_tree(&mut rng, &work, tree_idx, &yr, cap, limit, seed, has_math, if tree_idx == 2 { 1 } else if tree_idx == 3 { 2 } else { 0 }, n - run_cases,
                                      &mut stats, &mut distinct, &mut samples, &mut shards);
             continue;
         }
         // regression corpus first: a tree with file names that are not UTF-8 (ndjson used to panic: fix 20aad900)
         let kind = if tree_idx == 1 { rng.below(20); TreeKind::NonUtf8 } else { match rng.below(20) {
-            0..=11 => TreeKind::Stable,
+            0..=7 => TreeKind::Stable,
+            8..=9 => TreeKind::Wild,
+            10..=11 => TreeKind::WildNl,
             12..=14 => if can_restrict { TreeKind::Perm } else { TreeKind::Stable },
             15..=17 => TreeKind::Mutate,
             _ => TreeKind::NonUtf8,
@@ -729,7 +825,9 @@ fn run(args: &[String]) -> i32 {
         stats.add("empty_files", tree.files.iter().filter(|f| f.content.is_empty()).count() as u64);
 
         // a tree that is mutated is used for one mode only (the mutation destroys it)
-        let modes: Vec<Mode> = if kind == TreeKind::Mutate { vec![if rng.chance(1, 2) { Mode::Text } else { Mode::Ndjson }] } else { vec![Mode::Text, Mode::Ndjson] };
+        let modes: Vec<Mode> = if kind == TreeKind::Mutate { vec![if rng.chance(1, 2) { Mode::Text } else { Mode::Ndjson }] }
+            else if kind == TreeKind::WildNl { vec![Mode::Ndjson] }   // a name with a newline splits text lines
+            else { vec![Mode::Text, Mode::Ndjson] };
         for mode in modes {
             let table = |i: usize| -> Vec<u64> {
                 match mode { Mode::Text => oracle[i].clone(), Mode::Ndjson => vec![oracle[i].iter().fold(0u64, |m, r| m | (1 << r))] }
